@@ -17,6 +17,7 @@
 //             and stays below thr / 1.05 at every other sample of the stream
 // otherwise the content is regenerated from the next sub-seed (bounded, counted by the label retries:*).
 #include "kit/num.h"
+#include "kit/prelude.h"
 #include <dsplib.h>
 #include <dsplib/detector.h>
 #include <dsplib/gccphat.h>
